@@ -28,6 +28,9 @@ func NewListRange(expression string) (lr *ListRange, err error) {
 	}
 	rowsExpression := expression[bang+1:]
 	startEndStr := strings.Split(rowsExpression, "-")
+	if len(startEndStr) > 2 {
+		return nil, listRangeErr
+	}
 	if lr.StartRow, err = strconv.ParseInt(startEndStr[0], 10, 64); err != nil {
 		return nil, listRangeErr
 	}
@@ -47,6 +50,10 @@ func (self *ListRange) CheckListPreConstraints(r *ListRequest) (bool, error) {
 	}
 	if self.isSelected(r) {
 		if r.First {
+			if self.EndRow != -1 && self.StartRow >= self.EndRow {
+				// an empty window holds no row, not even the first
+				return false, nil
+			}
 			r.SetStartRow(self.StartRow)
 			r.SetRow(self.StartRow)
 		} else if r.Row64 >= self.EndRow && self.EndRow != -1 {
